@@ -141,7 +141,7 @@ def _run(ctx):
     graphs = []
     for n, (label, consts) in enumerate(models):
         res, nodes, edges, init = tlc.state_graph("Segments", _cfg(ctx, "seg_%d.cfg" % n, consts, INVARIANTS), ctx.scratch,
-                                                  coverage=True, timeout=2400)
+                                                  coverage=True, timeout=2400, workers=4)
         ctx.add_tlc(res, "exhaustive " + label)
         if res.violation:
             _spec_violation(ctx, res, label)
